@@ -32,6 +32,7 @@ dialect neovm
 pure okey(o Bytes, k Bytes) Bytes = "o" ++ o ++ k
 
 func AddKey(owner, keys)
+  cover [C20] W(alphabet()) && len(owner) == 25 && len(keys) == 1 && len(keys[0]) == 33
   ensures [C20] W(alphabet()) && len(owner) == 25
   ensures [C20] forall i Int {keys[i]} :: 0 <= i && i < len(keys) ==> len(keys[i]) == 33 && store.has(okey(owner, keys[i]))
   // nothing but keys of this owner is written, nothing is removed
@@ -46,6 +47,7 @@ func AddKey(owner, keys)
     invariant forall k Bytes {store.opt(k)} :: old(store).has(k) ==> store.has(k)
 
 func RemoveKey(owner, keys)
+  cover [C20] W(alphabet()) && len(owner) == 25 && len(keys) == 1 && len(keys[0]) == 33
   ensures [C20] W(alphabet()) && len(owner) == 25
   ensures [C20] forall i Int {keys[i]} :: 0 <= i && i < len(keys) ==> !store.has(okey(owner, keys[i]))
   ensures [C20] forall k Bytes {store.opt(k)} :: !prefix("o" ++ owner, k) ==> store.opt(k) == old(store).opt(k)
